@@ -91,7 +91,10 @@ Step ==
            o0 == Lift0(e.s)
            entry == IF e.name \in DOMAIN setup.moves THEN setup.moves[e.name] ELSE [ctype |-> "single", elems |-> <<>>, hasHam |-> FALSE]
            \* --- what the specification predicts -------------------------
-           exp == CASE e.a = "yield" -> s
+           \* "edit": between two run calls the user changed the atoms by hand, declared the remembered energy void and
+           \* let the simulation re-validate -- whatever is observed then is the new state (it must satisfy C04_Own)
+           exp == CASE e.a = "edit" -> Lift0(e.s)
+                    [] e.a = "yield" -> s
                     [] e.a = "call"  -> AfterCall(setup, s, entry, e.subs, o0)
                     [] e.a = "eval"  -> AfterEval(setup, s, entry)
                     [] e.a = "end"   -> CASE e.verdict = "acc" -> Accept(setup, s)
@@ -130,7 +133,7 @@ Step ==
                     THEN \A j \in Entitled(setup, s, entry, e.subs, o) : o.atoms[j].pos # s.atoms[j].pos
                     ELSE TRUE
            inv == IF e.a = "end" THEN InvFailures(setup, o, pre, e.verdict, entry.hasHam)
-                  ELSE IF e.a = "yield" /\ setup.ctx # "base" /\ ~(C04_Own(o) /\ C04_NoRecompute(o)) THEN {"C04_AtYield"}
+                  ELSE IF e.a \in {"yield", "edit"} /\ setup.ctx # "base" /\ ~(C04_Own(o) /\ C04_NoRecompute(o)) THEN {"C04_AtYield"}
                   ELSE {}
            \* C11: a composite displacement reports how many particles it moved, and without vetoes it moves
            \* min(number of elements, eligible particles) of them (all elements one move object: eligible is unambiguous)
